@@ -1300,7 +1300,8 @@ def range_next(E, frame, b, t, sts, c, quiet):
                 if incl:
                     # after yielding `end` the range is marked exhausted instead of incrementing
                     nstart = mk_int(v[1] + 1 if v[1] < lim else v[1], max(v[2] + 1 if v[2] < lim else v[2], v[1]))
-                    nr = ('A', (nstart, rng[1][1], mk_int(0, 1)) + tuple(rng[1][3:]))
+                    exh = const_int(1) if v[1] >= lim else (const_int(0) if v[2] < lim else mk_int(0, 1))
+                    nr = ('A', (nstart, rng[1][1], exh) + tuple(rng[1][3:]))
                 else:
                     nr = ('A', (nstart, rng[1][1]) + tuple(rng[1][2:]))
                 E.write_lv(s2, lv, nr)
